@@ -75,6 +75,8 @@ struct SimFd
 	std::string path;
 	size_t pos = 0;
 	int closes = 0;
+	bool nonblock = false;   // opened with O_NONBLOCK: on a pipe-like descriptor the first read finds no data yet (EAGAIN), as a real FIFO would
+	bool eagain_given = false;
 };
 struct FdSim
 {
